@@ -152,6 +152,16 @@ pub fn run(keys: &serde_json::Map<String, Value>, deco: &[Value], time_classes: 
         "2016-12-31T23:59:60Z".into(), "0000-01-01T00:00:00Z".into(), "9999-12-31T23:59:59Z".into(), "9999-12-31T23:59:59+23:59".into(),
         "2024-02-29T12:00:00.000000001-23:59".into(), "1971-01-01T00:00:00+00:00".into(),
     ];
+    // calendar corners: leap days of century years divisible by 400, month ends, midnight and end of day,
+    // whole seconds with Z (the shortest form), every month's last day
+    for y in [1600, 2000, 2400, 1972, 2096] {
+        upper.push(format!("{:04}-02-29T00:00:00Z", y));
+        upper.push(format!("{:04}-02-29T23:59:59+00:00", y));
+    }
+    for (m, d) in [(1, 31), (2, 28), (3, 31), (4, 30), (5, 31), (6, 30), (7, 31), (8, 31), (9, 30), (10, 31), (11, 30), (12, 31)] {
+        upper.push(format!("2023-{:02}-{:02}T12:34:56Z", m, d));
+        upper.push(format!("2023-{:02}-01T00:00:00.5-00:30", m));
+    }
     let instants = [now, now - Duration::days(20000), now + Duration::days(2_000_000), now + Duration::seconds(1)];
     let stride = if thorough { 1 } else { 37 };
     for off in (-1439i32..=1439).step_by(stride) {
